@@ -81,6 +81,9 @@ class AsyncSrc:
         return {"rules": []}
 
 
+P_RULE = {"algorithm": "deny-overrides", "rules": [{"id": "r", "effect": "permit", "actions": ["read"], "resource": {"type": "doc"}}]}
+
+
 def blocking_entry_points(run: lib.Run):
     P = {"rules": []}
     req = real.make_request({"sid": "u", "roles": [], "sattrs": {}, "action": "read", "rtype": "doc", "rid": "1", "rattrs": {}, "ctx": {}})
@@ -116,6 +119,63 @@ def blocking_entry_points(run: lib.Run):
             return f
         for kind in ("sync", "async", "async-await"):
             probes[f"Guard.evaluate_sync with a {kind} role resolver that evaluates on a second Guard"] = nested(kind)
+
+        # a Guard WITH a decision cache used from several calling contexts at once (cache fills must not serialise callers on a
+        # primitive that belongs to one event loop)
+        def cached_two_threads():
+            from rbacx.core.cache import DefaultInMemoryCache
+            g = Guard(P_RULE, cache=DefaultInMemoryCache(64))
+            start = threading.Barrier(3)
+            out: list = []
+
+            def one(k):
+                start.wait(5)
+                for j in range(20):
+                    rq = real.make_request({"sid": f"u{k}", "roles": [], "sattrs": {}, "action": "read", "rtype": "doc", "rid": str(j % 3), "rattrs": {}, "ctx": {}})
+                    out.append(g.evaluate_sync(*rq).allowed)
+            ths = [threading.Thread(target=one, args=(k,), daemon=True) for k in range(2)]
+            for t in ths:
+                t.start()
+            start.wait(5)
+            for t in ths:
+                t.join(WATCHDOG - 2)
+            if any(t.is_alive() for t in ths):
+                raise TimeoutError("two threads calling evaluate_sync on one cached Guard did not both finish")
+            return len(out) == 40 and all(out)
+
+        def cached_sync_inside_async():
+            from rbacx.core.cache import DefaultInMemoryCache
+            entered = threading.Event()
+
+            class SlowRes:
+                async def expand(self, roles):
+                    entered.set()
+                    await asyncio.sleep(0.05)
+                    return list(roles)
+            g = Guard(P_RULE, cache=DefaultInMemoryCache(64), role_resolver=SlowRes())
+
+            async def main():
+                t = asyncio.ensure_future(g.evaluate_async(*req))
+                await asyncio.sleep(0)
+                while not entered.is_set():
+                    await asyncio.sleep(0.001)
+                inner = g.evaluate_sync(*req).allowed          # the sync API from inside the running loop, while an async call is in flight
+                return inner and (await t).allowed
+            box: dict = {}
+
+            def runner():                                      # its own thread and loop (this probe may itself be called from a running loop)
+                try:
+                    box["r"] = asyncio.run(asyncio.wait_for(main(), WATCHDOG - 2))
+                except BaseException as e:  # noqa: BLE001
+                    box["r"] = repr(e)
+            th = threading.Thread(target=runner, daemon=True)
+            th.start()
+            th.join(WATCHDOG - 1)
+            if th.is_alive():
+                raise TimeoutError("evaluate_sync inside the loop while evaluate_async is in flight did not return")
+            return box.get("r")
+        probes["cached Guard: two threads × 20 evaluate_sync"] = cached_two_threads
+        probes["cached Guard: evaluate_sync inside the loop while evaluate_async is in flight"] = cached_sync_inside_async
 
         def start_stop(initial, force, timeout, src_cls=BlockingSrc):
             def f():
@@ -176,7 +236,7 @@ def blocking_entry_points(run: lib.Run):
             if not ok:
                 run.spec_failures.append({"part": "blocking entry point", "entry": name, "context": ctx, "observed": res,
                                           "spec": "a blocking entry point did not return (deadlock)"})
-            elif name.startswith("Guard.evaluate_sync with a") and res is not True:
+            elif name.startswith(("Guard.evaluate_sync with a", "cached Guard")) and res is not True:
                 run.spec_failures.append({"part": "blocking entry point", "entry": name, "context": ctx, "observed": res,
                                           "spec": "a nested evaluation through a collaborator returned another decision in this calling context"})
             elif isinstance(res, str) and res.startswith(("RuntimeError", "Timeout")):
@@ -282,7 +342,7 @@ def concurrency(run: lib.Run):
 
 def check(run: lib.Run, audit: dict) -> int:
     run.rule = ("deadlock: per-run obligation over 5 traced scenarios (check / start+stop × plain / running loop × initial load) + every blocking "
-                "entry point × {plain thread, running loop, worker thread} under a watchdog (26 probes per context incl. collaborators that re-enter a second Guard, async source, stop(None) "
+                "entry point × {plain thread, running loop, worker thread} under a watchdog (28 probes per context incl. collaborators that re-enter a second Guard, async source, stop(None) "
                 "with the poller mid-check, stop/start/diagnostics with the poller stuck inside source.load()/etag()); flavours: C01 template pool (subsampled) + random grammar cases × 7 flavours (sync / async API / sync inside a loop × sync, async-def and awaitable-returning collaborators) with recording sinks, "
                 "policy/request canonical form compared before/after (every third case also with a log sink that scrubs its payload in place); one batch of 60 concurrent evaluate_async over 12 engines against the "
                 "sequential results. non-trivial = a rule decided")
